@@ -203,6 +203,9 @@ def _mutate(rng, raw: bytes, layout: list, other: bytes) -> tuple[bytes, str]:
         v = rng.choice((0x8000, 0x8001, 0xC000, 0xFFFE))
         filler = bytes(rng.choice(b"abcdefghijklmnopqrstuvwxyz-_.0123456789") for _ in range(64)) * (v // 64 + 1)
         return bytes(b[:off]) + v.to_bytes(2, "big") + filler[:v] + bytes(b[off + 2 + max(0, int.from_bytes(raw[off:off + 2], "big", signed=True)):][:64]), "length-satisfied"
+    fixed = [e for e in layout if e[2] == "fixed" and e[1] in (1, 2, 4, 8) and e[0] + e[1] <= len(b)]
+    if fixed:
+        kinds += ["fixed-special"] * 2
     if lens:
         kinds += ["length"] * 4 + ["contbit"] * 2
     if markers:
@@ -234,6 +237,12 @@ def _mutate(rng, raw: bytes, layout: list, other: bytes) -> tuple[bytes, str]:
                 v = rng.choice((0, 1, 2, cur + 1, max(0, cur - 1), cur + 2, 127, 128, 2**31 - 1, 2**32 - 1, len(raw) + 1))
                 new = refcodec.uvarint(v)
             b[off:off + ln] = new
+    elif kind == "fixed-special":
+        # the wire-level special values of a fixed-width field: -1 (the null / "none" sentinel of timestamps, ids, epochs), the type's
+        # minimum and maximum, 0 and -2 - in a field that is not a length
+        off, ln, _, _ = rng.choice(fixed)
+        lo, hi = -(1 << (8 * ln - 1)), (1 << (8 * ln - 1)) - 1
+        b[off:off + ln] = rng.choice((-1, -1, lo, hi, 0, -2, 1)).to_bytes(ln, "big", signed=True)
     elif kind == "contbit":
         off, ln, role, _ = rng.choice(lens)
         p = off + rng.randrange(ln)
@@ -460,6 +469,29 @@ def best(fn, reps):
         out.append(time.process_time_ns() - t0)
     return max(1, min(out))
 
+# count-driven inputs: the work is in the number of items, not in their size (unknown tagged fields, array items, small strings)
+from kio.schema.api_versions.v3.request import ApiVersionsRequest
+from kio.schema.offset_fetch.v7.request import OffsetFetchRequestTopic
+from kio.schema.metadata.v9.request import MetadataRequest
+import gc
+
+def counted(n):
+    tags = b"".join(refcodec.uvarint(200 + k) + b"\\x00" for k in range(n))
+    return {{"unknown tagged fields": (ApiVersionsRequest, b"\\x02a\\x02b" + refcodec.uvarint(n) + tags),
+            "int32 array items": (OffsetFetchRequestTopic, b"\\x02t" + refcodec.uvarint(n + 1) + bytes(4 * n) + b"\\x00"),
+            "struct array items": (MetadataRequest, refcodec.uvarint(n + 1) + b"\\x02t\\x00" * n + b"\\x00\\x00\\x00\\x00")}}
+
+count_res = {{}}
+gc.disable()
+for name in counted(1):
+    row = []
+    for n in ({csmall}, {cbig}):
+        cls, data = counted(n)[name]
+        reader = entity_reader(cls)
+        row.append(best(lambda: reader(io.BytesIO(data)), 3))
+    count_res[name] = row
+gc.enable()
+
 res = {{}}
 for name in encodings(1):
     row = []
@@ -470,7 +502,7 @@ for name in encodings(1):
         copy = best(lambda: data[8:], 7)  # one allocation + one copy of (nearly) the same size, in the same allocator / cache regime
         row.append([decode, copy])
     res[name] = row
-print(json.dumps(res))
+print(json.dumps({{"sized": res, "counted": count_res}}))
 """
 
 
@@ -486,7 +518,9 @@ def scaling_probe(res: Result) -> None:
     import sys
 
     small, big = 2 << 20, 16 << 20
+    csmall, cbig = 4000, 32000
     rounds: list[dict] = []
+    crounds: list[dict] = []
 
     def growth(row: list) -> float:
         (ds, cs), (db, cb) = row
@@ -494,17 +528,26 @@ def scaling_probe(res: Result) -> None:
 
     for _ in range(3):
         try:
-            p = subprocess.run([sys.executable, "-c", _SCALING.format(verif=str(common.VERIF), small=small, big=big)], capture_output=True, text=True, timeout=900,
-                               env=dict(os.environ, PYTHONHASHSEED="0"), cwd=str(common.VERIF))
-            rounds.append(json.loads(p.stdout.strip().splitlines()[-1]))
+            p = subprocess.run([sys.executable, "-c", _SCALING.format(verif=str(common.VERIF), small=small, big=big, csmall=csmall, cbig=cbig)], capture_output=True,
+                               text=True, timeout=1800, env=dict(os.environ, PYTHONHASHSEED="0"), cwd=str(common.VERIF))
+            doc = json.loads(p.stdout.strip().splitlines()[-1])
+            rounds.append(doc["sized"])
+            crounds.append(doc["counted"])
         except Exception as exc:  # noqa: BLE001
             res.inconclusive_because(f"scaling probe did not report: {exc!r}")
             return
-        if max(growth(row) for row in rounds[-1].values()) <= 3:
+        if max(growth(row) for row in rounds[-1].values()) <= 3 and max(b / max(a, 1) for a, b in crounds[-1].values()) <= 24:
             break  # proportional in this round: nothing to confirm
     res.count("scaling_probe_rounds", len(rounds))
     growths = {name: [round(growth(r[name]), 2) for r in rounds] for name in rounds[0]}
     res.coverage["scaling_probe"] = {"sizes": [small, big], "growth_of_decode_time_over_copy_time_by_round": growths, "cpu_ns_decode_and_copy_last_round": rounds[-1]}
+    cratios = {name: [round(r[name][1] / max(r[name][0], 1), 1) for r in crounds] for name in crounds[0]}
+    res.coverage["scaling_probe"]["count_driven"] = {"items": [csmall, cbig], "cpu_time_ratio_by_round": cratios, "cpu_ns_last_round": crounds[-1]}
+    for name, rs in cratios.items():
+        # eight times the items: linear work gives about 8 (measured 7.5-9.5 with the collector off); quadratic work about 64
+        if len(rs) == 3 and min(rs) > 24:
+            res.violation(f"superlinear-count:{name.replace(' ', '-')}", f"decoding {cbig} {name} took {min(rs)}..{max(rs)} times the CPU time of decoding {csmall} (8 times as many) "
+                          f"in three independent rounds: not proportional to the input size", {"shape": name, "ratios": rs, "rounds": crounds})
     for name, gs in growths.items():
         if len(gs) == 3 and min(gs) > 3:
             res.violation(f"superlinear:{name.replace(' ', '-')}", f"decoding a {name} value: going from {small} to {big} bytes the CPU time grew {min(gs)}..{max(gs)} times faster "
